@@ -49,6 +49,7 @@ fn dump(name: &str, bytes: &[u8]) {
     }
 }
 
+#[allow(dead_code)]
 fn hclass(h: u16) -> &'static str {
     if h < 25 {
         "h<25"
@@ -160,8 +161,9 @@ fn same_picture(a: &Buffer, b: &Buffer, fonts: bool) -> Option<Diff> {
 
 // ------------------------------------------------------------------------------------------------ clause (2): reference decoding
 
-fn expected_attr(m: &Model, c: &Cell, two: bool) -> u8 {
-    let fg = if two { (c.fg & 7) | if c.page == 1 { 8 } else { 0 } } else { c.fg & 15 };
+/// `hi` = the model font page that is the file's second font (512-character mode): the one in the higher slot
+fn expected_attr(m: &Model, c: &Cell, hi: Option<u8>) -> u8 {
+    let fg = if let Some(hi) = hi { (c.fg & 7) | if c.page == hi { 8 } else { 0 } } else { c.fg & 15 };
     let bg = if m.ice { c.bg & 15 } else { (c.bg & 7) | if c.blink { 8 } else { 0 } };
     fg | (bg << 4)
 }
@@ -172,8 +174,11 @@ fn compare_idx(m: &Model, cells: &[Cell], d: &refdec::IdxPic) -> Result<(), (Str
     if d.w != m.w as usize {
         return e("width", format!("file says width {}, saved buffer has {}", d.w, m.w));
     }
-    let used = m.used_pages(cells);
+    // the file stores the used fonts in the order of their font-table slots
+    let mut used = m.used_pages(cells);
+    used.sort_by_key(|p| m.slot(*p));
     let two = used.len() == 2;
+    let hi = if two { Some(used[1]) } else { None };
     if d.chars512 != two {
         return e("chars512_flag", format!("512Chars flag {} but the picture uses font pages {:?}", d.chars512, used));
     }
@@ -181,7 +186,7 @@ fn compare_idx(m: &Model, cells: &[Cell], d: &refdec::IdxPic) -> Result<(), (Str
     for i in 0..rows * d.w {
         let c = &cells[i];
         let (ch, at) = d.cells[i];
-        let want = expected_attr(m, c, two);
+        let want = expected_attr(m, c, hi);
         let pos = format!("cell ({},{})", i % d.w, i / d.w);
         if ch != c.ch {
             return e("char", format!("{pos}: file has character {ch:#04x}, buffer {:#04x}", c.ch));
@@ -197,8 +202,18 @@ fn compare_idx(m: &Model, cells: &[Cell], d: &refdec::IdxPic) -> Result<(), (Str
             } else {
                 ("bg", "background")
             };
-            let class = if m.fmt == Fmt::Xb { if m.compress { "|compressed" } else { "|raw" } } else { "" };
-            return e(&format!("{field}{class}"), format!("{pos}: {what}: file has attribute {at:#04x}, buffer cell {c:?} needs {want:#04x}"));
+            let class = if m.fmt == Fmt::Xb {
+                match (m.compress, field == "font_page" && !m.slots.is_empty()) {
+                    (true, false) => "|compressed",
+                    (false, false) => "|raw",
+                    // the two fonts do not sit in font-table slots 0 and 1
+                    (true, true) => "|compressed|fonts_outside_slots_0_1",
+                    (false, true) => "|raw|fonts_outside_slots_0_1",
+                }
+            } else {
+                ""
+            };
+            return e(&format!("{field}{class}"), format!("{pos}: {what}: file has attribute {at:#04x}, buffer cell {c:?} (font slots {:?}) needs {want:#04x}", m.slots));
         }
     }
     if d.h != m.h as usize {
@@ -206,7 +221,9 @@ fn compare_idx(m: &Model, cells: &[Cell], d: &refdec::IdxPic) -> Result<(), (Str
     }
     if let Some(ice) = d.ice {
         if ice != m.ice {
-            return e("ice_mode", format!("file says non-blink/iCE = {ice}, buffer ice = {}", m.ice));
+            // the attached (stale) record says the opposite of the buffer: the flag must come from the buffer
+            let class = if m.rec.as_ref().is_some_and(|r| r.use_ice != m.ice) { "|stale_record_disagrees" } else { "" };
+            return e(&format!("ice_mode{class}"), format!("file says non-blink/iCE = {ice}, buffer ice = {}, attached record {:?}", m.ice, m.rec));
         }
     }
     if m.fmt.embeds_palette() {
@@ -268,6 +285,9 @@ fn compare_tnd(m: &Model, cells: &[Cell], d: &refdec::RgbPic) -> Result<(), (Str
                 if g != want {
                     let field = if g.ch != want.ch {
                         "char"
+                    } else if c.rep == 2 && g.fg != want.fg {
+                        // the cell stores a bright foreground (8..=15) AND the BOLD flag; it shows as entry fg
+                        "fg|bold_flag_on_bright_fg"
                     } else if ctrl {
                         "color_of_ctrl_char"
                     } else if prev_ctrl {
@@ -465,16 +485,25 @@ fn check_model(m: &Model) -> Verdict {
     let used = m.used_pages(&cells);
     let ctrl = cells.iter().any(|c| c.ch < 32);
     let nontrivial = m.h != 25 || m.w != 80 || used.len() >= 2 || ctrl;
-    // class = height class [,2fonts] [,cmt = SAUCE with comment lines] | storage shape [~ = steered]
-    let mut class = hclass(m.h).to_string();
-    if used.len() >= 2 {
-        class.push_str(",2fonts");
+    // class = the storage shape for perturbed buffers; for plain ones "plain:" + one letter per dimension that is active:
+    // 2 = two font pages used, c = SAUCE with comment lines, r = stale record attached, s = fonts outside slots 0/1,
+    // b = bright foregrounds stored with the BOLD flag, h = height below 25; a trailing ~ = steered model
+    let mut class = shape.to_string();
+    if m.shape % icyv::shape::CODES == 0 {
+        class.push(':');
+        for (on, tag) in [
+            (used.len() >= 2, '2'),
+            (m.sauce && matches!(m.sauce_meta, 1 | 2 | 3 | 5), 'c'),
+            (m.rec.is_some(), 'r'),
+            (!m.slots.is_empty(), 's'),
+            (cells.iter().any(|c| c.rep != 0), 'b'),
+            (m.h < 25, 'h'),
+        ] {
+            if on {
+                class.push(tag);
+            }
+        }
     }
-    if m.sauce && matches!(m.sauce_meta, 1 | 2 | 3 | 5) {
-        class.push_str(",cmt");
-    }
-    class.push('|');
-    class.push_str(shape);
     if m.steered {
         class.push('~');
     }
